@@ -8,7 +8,7 @@ Line-protocol driver for C09 (one output line per input line).
 run <head>                     → ok <score> | ERR:<Exc>     score of the heuristic from the executable model
 so  <head>                     → ok <score> | ERR:<Exc>     the score_only code path (gapped / ungapped)
 abf <head>                     → ok <optAffAbutFree> <optAff .semi>   (affine semi-global cases; Python: independent recursion)
-chk <head> <score> <traces>    → ok n=<n> sound=<k> abutfree=<c>   `checkResult` on every returned trace; c = traces in class `affAbutFree`
+chk <head> <score> <traces>    → ok n=<n> sound=<k> abutfree=<c> distinct=<0|1>   `checkResult` on every returned trace; c = traces in class `affAbutFree`
 ```
 gap `L:<g>` or `A:<open>:<ext>`; code lists with `_` = empty; matrix row-major with `k2` columns; a trace is
 `i:j;i:j;…` (`_` = empty), traces separated by `/` (`-` = none).
@@ -138,7 +138,9 @@ def step (_ : Unit) (line : String) : Unit × String :=
           let abut := ts.filter fun t => match traceToAln t with
             | some aln => validB .local h.a h.b aln && optClass h.a h.b h.gap h.mode aln == .affAbutFree
             | none => false
-          s!"ok n={ts.length} sound={sound.length} abutfree={abut.length}"
+          -- seeded results: the returned alignments are pairwise distinct (banded results may repeat a trace: known finding)
+          let distinct : Bool := h.kind == "b" || distinctNonEmpty ts
+          s!"ok n={ts.length} sound={sound.length} abutfree={abut.length} distinct={if distinct then 1 else 0}"
         | _, _ => "bad-op"
       | _, _ => "bad-op"
     | _ => "bad-op"
